@@ -80,13 +80,18 @@ def h_params_construction(ctx, kind, cfg):
         params = MetadataParams(ctx.flag("closure") != 0, 0, ctx.int("size", 0, 1000), ctx.text("s", (1,)), ctx.text("d", (1,)))
         mk = lambda: MetadataPdu(conf, params, [CfdpTlv(5, ctx.octets("o", 1))])  # noqa: E731
     else:
-        params = FileDataParams(ctx.octets("fd", 2), ctx.int("off", 0, 1000), SegmentMetadata(ctx.int("st", 0, 3), ctx.octets("m", 1)))
+        # the payload in the caller's own mutable buffer (a sender filling one buffer per segment)
+        buf = ctx.octets("fd", 2, mutable=True)
+        params = FileDataParams(buf, ctx.int("off", 0, 1000), SegmentMetadata(ctx.int("st", 0, 3), ctx.octets("m", 1)))
         mk = lambda: FileDataPdu(conf, params)  # noqa: E731
     before_c, before_p = conf_snapshot(conf), params_snapshot(kind, params)
+    held = {k: getattr(params, k) for k in vars(params)}
     pdu = mk()
     pdu.pack()
     ctx.holds("caller's PduConfig unchanged", snap_eq(before_c, conf_snapshot(conf)))
     ctx.holds("caller's parameter object unchanged by construction and packing", snap_eq(before_p, params_snapshot(kind, params)))
+    ctx.holds("caller's parameter object still holds the very objects the caller put in", all(getattr(params, k) is o for k, o in held.items()),
+              ", ".join(k for k, o in held.items() if getattr(params, k) is not o))
 
 
 def h_setter(ctx, kind, cfg, scen):
